@@ -27,7 +27,7 @@ def genScopedMsg (version dom : Nat) (kn : KnownMap) (foreign : List Nat) : G (M
           if version = 10 ∧ !old.isEmpty ∧ (← chance 1 2) then
             let i ← below old.length
             let pen ← bitsVal 32
-            pure (old.mapIdx fun j f => if j = i then { f with ent := if f.ent.isSome then none else some pen } else f)
+            pure (togglePen old i pen)
           else genFields version
         | _ => genFields version)
       sets := sets ++ [.template [(tid, fs)] 0]
